@@ -191,6 +191,21 @@ def run(ctx):
                   'every accepted demand-active stores Some(shareId field of that PDU) into self.share_id', da.where(),
                   'read_demand_active_pdu accepts a demand-active without (re)storing its shareId: after a reactivation the old share id would be sent')
     ctx.floor('R03.5', 'accepting paths of read_demand_active_pdu', n_true, 1)
+    # ---- R03.8 a capability set the client cannot parse does not abort the activation (MS-RDPBCGR 1.3.1.1: unknown sets are ignored) ---
+    n_tol = 0
+    for path, st in feasible_paths(da, P, limit=200000):
+        for br in path_branches(st):
+            d = strip(resolve(st, br[2]))
+            if d[0] == 'discr' and br[3] == 1:
+                x = unwrap_cast(d[1])
+                if x[0] == 'call' and x[1].endswith('Capability::from_capability_set'):
+                    n_tol += 1
+                    rk = ret_kind(strip(st.env.get(0))) if not st.cut else 'loop'
+                    ctx.check(rk != 'err' and rk != 'prop', 'R03.8', 'capability:tolerant',
+                              'a capability set that cannot be parsed is skipped: the loop continues and the demand-active is still accepted', da.where(),
+                              'read_demand_active_pdu returns an error when one capability set cannot be parsed: a conforming server that sends a '
+                              'capability set unknown to the client gets no confirm-active / finalisation (the sequence stops)')
+    ctx.floor('R03.8', 'paths through the Err arm of Capability::from_capability_set', n_tol, 1)
     stores = field_stores(P, 'core::global::Client', 'share_id')
     ctx.check(set(k for k, _ in stores) == {'core::global::Client::read_demand_active_pdu'}, 'R03.5', 'global:share_id_writers',
               'share_id is stored only by read_demand_active_pdu', '', 'share_id is stored in %s' % sorted(set(k for k, _ in stores)))
